@@ -55,7 +55,8 @@ def write_replay(prop_id, seed, payload) -> str:
     name = f"{prop_id}-{seed}-{digest(payload)}.json"
     path = os.path.join(REPLAY_DIR, name)
     with open(path, "w", encoding="utf-8") as f:
-        json.dump(payload, f, indent=1, ensure_ascii=False, sort_keys=True)
+        # NOTE: never sort keys here - the key order of sample objects is part of the input
+        json.dump(payload, f, indent=1, ensure_ascii=False)
     return path
 
 
